@@ -234,3 +234,38 @@ class VFunc:
 class VModule:
     def __init__(self, name):
         self.name = name
+
+
+# ------------------------------------------------------------------------------------------------
+# abstract vectors / unmodelled numeric objects: an uninterpreted sort; arithmetic on them is an
+# uninterpreted (hence deterministic, otherwise unconstrained) function of the operands
+
+VecSort = z3.DeclareSort('Vec')
+
+
+def is_vec(v):
+    return is_z3(v) and v.sort() == VecSort
+
+
+def fresh_vec(name='v'):
+    return z3.Const(fresh_name(name), VecSort)
+
+
+_vec_ops = {}
+
+
+def vec_op(opname, *args):
+    """uninterpreted operation over Vec / Real / Int operands"""
+    zs = []
+    for a in args:
+        if isinstance(a, VOpaque) or a is None:
+            return fresh_vec(opname)
+        zs.append(to_z3(a))
+    key = (opname,) + tuple(str(z.sort()) for z in zs)
+    if key not in _vec_ops:
+        _vec_ops[key] = z3.Function('%s_%d' % (opname, len(_vec_ops)), *([z.sort() for z in zs] + [VecSort]))
+    return _vec_ops[key](*zs)
+
+
+norm_fn = z3.Function('norm', VecSort, z3.RealSort())
+vlen_fn = z3.Function('vlen', VecSort, z3.IntSort())
